@@ -1138,6 +1138,10 @@ impl<'a> Sim<'a> {
                 }
                 Err((panicked, e)) => {
                     let sig = format!("{}:{}", if panicked { "panic" } else { "error" }, err_class(&e));
+                    if e.contains("vote extension") {
+                        // the block's extended commit was accepted in the proposal phase but cannot be applied
+                        self.viol.push("C15", "accepted-extended-commit-cannot-be-applied", &sig, self.step, format!("h={h}: FinalizeBlock failed on node {n} while applying the prices of an extended commit that ProcessProposal accepted: {e}"));
+                    }
                     self.viol.push("C05", "finalize-failed", &sig, self.step, format!("h={h}: FinalizeBlock failed on node {n} (path {}): {e}", self.nodes[*n].path));
                     self.trace.ev(&format!("finalize h={h} node={n} FAILED"));
                     self.nodes[*n].dead = true;
